@@ -1,7 +1,11 @@
 //! Implement a lock-free pair of base_time_ms and corresponding voucher
 //! with two copies and a sequence number.
+#[cfg(woodpile_verif)]
+use crate::verif_shim::{AtomicU64, Mutex};
+#[cfg(not(woodpile_verif))]
 use std::sync::atomic::AtomicU64;
 use std::sync::atomic::Ordering;
+#[cfg(not(woodpile_verif))]
 use std::sync::Mutex;
 
 #[derive(Debug)]
